@@ -60,23 +60,6 @@ def closeVec (n : Nat) (a b : Vec) : Bool := a.size == b.size && allLt n (fun i 
 def closeMat (n k : Nat) (a b : Mat) : Bool := allLt n (fun i => allLt k (fun j => close (a.get i j) (b.get i j)))
 def showVec (v : Vec) : String := " ".intercalate (v.toList.map ratStr)
 
-/-- depth of the exact look-ahead the instance allows: (A·O)^k ≤ budget -/
-def depthFor (m : POMDP) (budget : Nat) : Nat :=
-  let br := m.A * m.O
-  if br ≤ 1 then 8 else
-  let rec go (fuel k acc : Nat) : Nat := match fuel with
-    | 0 => k
-    | f+1 => if acc * br ≤ budget then go f (k+1) (acc * br) else k
-  go 8 0 1
-
-structure Refs where
-  m : POMDP
-  /-- MDP super-solution after `j` backups of `Rmax/(1-γ)` -/
-  vU : Vec
-  /-- blind sub-solutions after `j` steps from `minR_a/(1-γ)` -/
-  βL : Array Vec
-  k : Nat
-
 /-- rows written as decimal literals (0.85 + 0.15) sum to 1 only up to one rounding of the double: accepted within 1e-12, far below `epsOf` -/
 def rowSumOK (x : Rat) : Bool := decide (absR (x - 1) ≤ 1 / 1000000000000)
 
@@ -84,17 +67,6 @@ def validModel (m : POMDP) : Bool :=
   decide (0 ≤ m.γ) && decide (m.γ < 1) && decide (0 < m.S) && decide (0 < m.A) && decide (0 < m.O) &&
   allLt m.S (fun s => allLt m.A (fun a => allLt m.S (fun s1 => decide (0 ≤ m.T s a s1)) && rowSumOK (sumTo m.S (m.T s a)) &&
     allLt m.O (fun o => decide (0 ≤ m.Ob s a o)) && rowSumOK (sumTo m.O (m.Ob s a))))
-
-def mkRefs (m : POMDP) (j budget : Nat) : Refs :=
-  let cU := maxRall m / (1 - m.γ)
-  { m := m, vU := iterV (mdpStepV m) j (mkVec m.S (fun _ => cU)),
-    βL := (Array.range m.A).map (fun a => iterV (blindStepV m a) j (mkVec m.S (fun _ => minRa m a / (1 - m.γ)))),
-    k := depthFor m budget }
-
-/-- infinite-horizon upper reference at `x` -/
-def Refs.U (r : Refs) (x : Vec) : Rat := iterHV r.m (linVV r.m.S r.vU) r.k x
-/-- infinite-horizon lower reference at `x` -/
-def Refs.L (r : Refs) (x : Vec) : Rat := iterHV r.m (maxLinVV r.m.S r.βL) r.k x
 
 /-- upper reference of the `t`-step optimal value started from the constant `c`: `H^k (lin B^(t-k) c)` -/
 def finU (m : POMDP) (c : Rat) (t kmax : Nat) (x : Vec) : Rat :=
@@ -127,15 +99,6 @@ def reportedSlack (m : POMDP) (useTol : Bool) (var : Rat) (h : Nat) : Rat :=
   if useTol then var * m.γ / (1 - m.γ) else powR m.γ h * maxAbsR m / (1 - m.γ)
 
 def clampActive (m : POMDP) : Bool := decide (1 - m.γ < Gen.C03Src.clamp)
-
-/-- can the as-found `bestConservativeAction` leave out an observation at all, and can that raise a value?  Only if some observation is
-    impossible from some corner under some action and some reward is negative.  Failing lower-bound clauses on other inputs cannot be
-    the known defect C03-1: their clause name gets the suffix `_unexplained` (never a known finding). -/
-def skipExplains (m : POMDP) : Bool :=
-  Gen.C03Src.consSkips && decide (minRall m < 0) &&
-  (List.range m.S).any (fun s => (List.range m.A).any (fun a => (List.range m.O).any (fun o =>
-    checkEqualSmall (sumTo m.S (fun s1 => m.T s a s1 * m.Ob s1 a o)) 0)))
-def sfx (m : POMDP) : String := if skipExplains m then "" else "_unexplained"
 
 /-! ### blind -/
 
@@ -286,12 +249,12 @@ def boundClauses (comp : String) (m : POMDP) (r : Refs) (b0 : Vec) (lb ub : Rat)
   let eps := epsOf m
   let u0 := r.U b0
   let l0 := r.L b0
-  let v := v.failIf (!(decide (lb ≤ u0 + eps))) s!"{comp} lb_above_optimal_value{sfx m} lb={ratStr lb} ref={ratStr u0}"
+  let v := v.failIf (!(decide (lb ≤ u0 + eps))) s!"{comp} lb_above_optimal_value lb={ratStr lb} ref={ratStr u0}"
   let v := v.failIf (!(decide (l0 ≤ ub + eps))) s!"{comp} ub_below_optimal_value ub={ratStr ub} ref={ratStr l0}"
-  let v := v.failIf (!(decide (lb ≤ ub + eps))) s!"{comp} lb_above_ub{sfx m} lb={ratStr lb} ub={ratStr ub}"
+  let v := v.failIf (!(decide (lb ≤ ub + eps))) s!"{comp} lb_above_ub lb={ratStr lb} ub={ratStr ub}"
   let ps := probes m b0
   let resV := vecAbove m (vl.toList.map (·.values)) (ps.map (fun x => (x, r.U x))) eps
-  let v := v.failIf resV.isSome s!"{comp} lb_vector_above_optimal_value{sfx m} {resV.getD ""}"
+  let v := v.failIf resV.isSome s!"{comp} lb_vector_above_optimal_value {resV.getD ""}"
   let resQ := firstSome ps (fun x => let l := r.L x; if decide (l ≤ basicValV m Q x + eps) then none else some s!"ubQ(x)={ratStr (basicValV m Q x)} ref={ratStr l} x={showVec x}")
   let v := v.failIf resQ.isSome s!"{comp} ubQ_below_optimal_value {resQ.getD ""}"
   let resP := firstSome (pts.toList.take 6) (fun (p, val) =>
@@ -299,14 +262,131 @@ def boundClauses (comp : String) (m : POMDP) (r : Refs) (b0 : Vec) (lb ub : Rat)
     let l := r.L p; if decide (l ≤ val + eps) then none else some s!"point={showVec p} value={ratStr val} ref={ratStr l}")
   v.failIf resP.isSome s!"{comp} ubV_point_below_optimal_value {resP.getD ""}"
 
-/-- `snap <pomdp> <b0> algo iter havePrev prevVList | lb ub vlist Q ubV` -/
+def matRows (Q : Mat) : List (List Rat) := Q.toList.map (·.toList)
+
+/-- value of `bestPromisingAction<false>` at the unnormalised belief `b` on the surface `(Q, pts)`: the model function -/
+def promisingOn (m : POMDP) (Q : Mat) (pts : Array (Vec × Rat)) (b : Vec) : Option Rat := bestPromisingSaw m Q pts b
+
+/-- upper-bound items of a snapshot that were not there before: stored points and overwritten corner entries -/
+inductive UbItem where
+  | point (b : Vec) (u : Rat)
+  | corner (s a : Nat) (u : Rat)
+
+/-- certify new upper-bound items in any admissible order: an item is accepted when its value is at least the promising backup of its
+    belief on the surface certified so far (events `poolAdd` + `pushPoint` / `setCorner` of `anytime_sound`); accepted items join the surface -/
+def certifyUbPass (m : POMDP) (eps : Rat) (st : Mat × Array (Vec × Rat) × List UbItem) : Mat × Array (Vec × Rat) × List UbItem :=
+  st.2.2.foldl (fun (acc : Mat × Array (Vec × Rat) × List UbItem) it =>
+    let (b, u) := match it with | .point b u => (b, u) | .corner s _ u => (unitV m.S s, u)
+    match promisingOn m acc.1 acc.2.1 b with
+    | some pv => if decide (pv ≤ u + eps) then
+        (match it with
+         | .point b u => (acc.1, acc.2.1.push (b, u), acc.2.2)
+         | .corner s a u => (mkMat m.S m.A (fun s' a' => if s' == s && a' == a then u else acc.1.get s' a'), acc.2.1, acc.2.2))
+      else (acc.1, acc.2.1, acc.2.2 ++ [it])
+    | none => (acc.1, acc.2.1, acc.2.2 ++ [it])) (st.1, st.2.1, [])
+
+/-- one leaf-to-root sweep of model promising backups at the (normalised) reachable beliefs: points that are certified by construction -/
+def enrichUb (m : POMDP) (B : List Vec) (Q : Mat) (pts : Array (Vec × Rat)) : Array (Vec × Rat) :=
+  B.foldl (fun (acc : Array (Vec × Rat)) b =>
+    let ms := mass m.S b.get
+    if decide (ms ≤ 0) then acc else
+    let nb := mkVec m.S (fun s => b.get s / ms)
+    if (List.range m.S).any (fun s => nb.get s == 1) then acc else        -- corners live in Q
+    match promisingOn m Q acc nb with
+    | some pv => if acc.any (fun q => q.1 == nb && decide (q.2 ≤ pv)) then acc else acc.push (nb, pv)
+    | none => acc) pts
+
+def certifyUb (m : POMDP) (eps : Rat) (B : List Vec) (Q0 : Mat) (pts0 : Array (Vec × Rat)) (items : List UbItem) (rounds : Nat) : Nat :=
+  let rec loop (r : Nat) (st : Mat × Array (Vec × Rat) × List UbItem) : Nat :=
+    let s1 := certifyUbPass m eps st
+    let s2 := if s1.2.2.length == 0 || s1.2.2.length == st.2.2.length then s1 else certifyUbPass m eps s1
+    let s3 := if s2.2.2.length == 0 || s2.2.2.length == s1.2.2.length then s2 else certifyUbPass m eps s2
+    match r with
+    | 0 => s3.2.2.length
+    | r+1 => if s3.2.2.length == 0 || s3.2.1.size > 80 then s3.2.2.length else loop r (s3.1, enrichUb m B s3.1 s3.2.1, s3.2.2)
+  loop rounds (Q0, pts0, items)
+
+/-! ### trace validation: every new lower-bound vector must be (dominated by) a point backup of certified vectors -/
+
+/-- `g_o(c)(s) = Σ_s1 T(s,a,s1) O(s1,a,o) c(s1)` -/
+def gvec (m : POMDP) (a o : Nat) (c : Vec) : Vec := mkVec m.S (fun s => sumTo m.S (fun s1 => m.T s a s1 * m.Ob s1 a o * c.get s1))
+def vadd (S : Nat) (x y : Vec) : Vec := mkVec S (fun s => x.get s + y.get s)
+def vmaxc (S : Nat) (x y : Vec) : Vec := mkVec S (fun s => if x.get s < y.get s then y.get s else x.get s)
+
+/-- depth-first search for one candidate per observation with `α ≤ R_a + γ Σ_o g_o(c_o) + δ` componentwise; `rem n` = componentwise
+    bound of what the last `n` observations can still contribute (prunes hopeless prefixes) -/
+def searchW (m : POMDP) (a : Nat) (α : Vec) (δ : Rat) (G : Array (Array Vec)) (rem : Array Vec) (ncand : Nat) :
+    Nat → Vec → List Nat → Option (List Nat)
+  | 0, P, chosen => if allLt m.S (fun s => decide (α.get s ≤ m.R s a + m.γ * P.get s + δ)) then some chosen.reverse else none
+  | n+1, P, chosen =>
+    let o := m.O - (n+1)
+    firstSome (List.range ncand) (fun c =>
+      let P' := vadd m.S P ((G.getD o #[]).getD c #[])
+      let bound := vadd m.S P' (rem.getD n #[])
+      if allLt m.S (fun s => decide (α.get s ≤ m.R s a + m.γ * bound.get s + δ)) then searchW m a α δ G rem ncand n P' (c :: chosen) else none)
+
+def findWitness (m : POMDP) (a : Nat) (α : Vec) (cands : Array Vec) (δ : Rat) : Option (List Nat) :=
+  let G : Array (Array Vec) := (Array.range m.O).map (fun o => cands.map (gvec m a o))
+  let zero := mkVec m.S (fun _ => 0)
+  let best : Array Vec := G.map (fun row => if row.size == 0 then zero else row.foldl (vmaxc m.S) (row.getD 0 zero))
+  -- rem[n] = Σ over the last n observations of the componentwise maximum
+  let rem : Array Vec := (Array.range (m.O + 1)).map (fun n => (List.range n).foldl (fun acc i => vadd m.S acc (best.getD (m.O - 1 - i) zero)) zero)
+  searchW m a α δ G rem cands.size m.O zero []
+
+/-- unnormalised beliefs reachable from `b0` in at most `D` steps (zero-mass successors dropped, duplicates removed), deepest first -/
+def reachable (m : POMDP) (b0 : Vec) (D : Nat) : List Vec :=
+  let step := fun (bs : List Vec) => bs.flatMap (fun b => (List.range m.A).flatMap (fun a => (List.range m.O).filterMap (fun o =>
+    let nb := bstepV m b a o
+    if decide (mass m.S nb.get ≤ 0) then none else some nb)))
+  let dedup := fun (l : List Vec) => l.foldl (fun (acc : List Vec) b => if acc.any (· == b) then acc else acc ++ [b]) []
+  let rec go (d : Nat) (front : List Vec) (levels : List (List Vec)) : List (List Vec) := match d with
+    | 0 => levels
+    | d+1 => let nxt := dedup (step front); go d nxt (nxt :: levels)
+  let levels := go D [b0] [[b0]]
+  dedup (levels.flatMap id)
+
+/-- one leaf-to-root sweep of model backups at the reachable beliefs: what SARSOP's own backups along any sampled path inside that part of
+    the tree can produce, each with its certificate -/
+def enrich (m : POMDP) (B : List Vec) (st : Array Vec × List (Nat × Vec × List Nat)) : Array Vec × List (Nat × Vec × List Nat) :=
+  B.foldl (fun (acc : Array Vec × List (Nat × Vec × List Nat)) b =>
+    let (a, _, α) := bestConservative m b acc.1
+    if acc.1.any (· == α) then acc else
+    let idx := (List.range m.O).map (fun o => bestAt m.S (bstepV m b a o) acc.1)
+    (acc.1.push α, acc.2 ++ [(a, α, idx)])) st
+
+/-- try to certify the vectors in `todo` against the candidate set; returns the extended state and what is left -/
+def justifyPass (m : POMDP) (δ : Rat) (st : Array Vec × List (Nat × Vec × List Nat)) (todo : List (Nat × Vec)) :
+    (Array Vec × List (Nat × Vec × List Nat)) × List (Nat × Vec) :=
+  todo.foldl (fun (acc : (Array Vec × List (Nat × Vec × List Nat)) × List (Nat × Vec)) (e : Nat × Vec) =>
+    match findWitness m e.1 e.2 acc.1.1 δ with
+    | some idx => ((acc.1.1.push e.2, acc.1.2 ++ [(e.1, e.2, idx)]), acc.2)
+    | none => (acc.1, acc.2 ++ [e])) (st, [])
+
+/-- certify the new vectors of a snapshot: directly from the previous vectors and each other, else after up to `rounds` sweeps of model
+    backups at the beliefs of the explored tree near the root (SARSOP improves a vector several times along one sampled path and prunes the
+    intermediate ones, so a surviving vector is in general a multi-step backup of the previous snapshot) -/
+def justify (m : POMDP) (δ : Rat) (B : List Vec) (prev : Array Vec) (news : List (Nat × Vec)) (rounds : Nat) :
+    List (Nat × Vec × List Nat) × Nat :=
+  let rec loop (r : Nat) (st : Array Vec × List (Nat × Vec × List Nat)) (todo : List (Nat × Vec)) : List (Nat × Vec × List Nat) × Nat :=
+    let (st1, left1) := justifyPass m δ st todo
+    let (st2, left2) := if left1.length == 0 || left1.length == todo.length then (st1, left1) else justifyPass m δ st1 left1
+    match r with
+    | 0 => (st2.2, left2.length)
+    | r+1 => if left2.length == 0 || st2.1.size > 60 then (st2.2, left2.length) else loop r (enrich m B st2) left2
+  loop rounds (prev, []) news
+
+/-- `snap <pomdp> <b0> algo iter havePrev prevVList havePrevUb [prevQ prevUbV] | lb ub vlist Q ubV` -/
 def snapOp : P String := do
   let m ← pomdpP; let b0 ← lvecP
-  let algo ← P.tok; let it ← P.nat; let _havePrev ← P.bool; let _prev ← vlistP false; P.bar
+  let algo ← P.tok; let it ← P.nat; let havePrev ← P.bool; let prev ← vlistP false
+  let havePrevUb ← P.bool
+  let prevUb ← (if havePrevUb then do let q ← matP; let p ← ubvP; pure (some (q, p)) else pure none)
+  P.bar
   let lb ← P.q; let ub ← P.q; let vl ← vlistP false; let Q ← matP; let pts ← ubvP; P.eof
   if !validModel m then return "skip invalid_model"
   if clampActive m then return "skip clamp_active"
   let r := mkRefs m 30 150
+  let eps := epsOf m
   let v : Verdict := { tag := s!"snap_{algo}" ++ (if it == 0 then " first" else "") }
   let v := boundClauses algo m r b0 lb ub vl Q pts v
   -- GapMin's lb is the value of its vector set at the initial belief
@@ -314,6 +394,45 @@ def snapOp : P String := do
       let best := maxTo (vl.size - 1) (fun i => dotV m.S b0 (veVals vl i))
       v.diffIf (!(close best lb)) s!"GapMin lb_not_value_of_vectors lb={ratStr lb} max={ratStr best}"
     else v
+  -- trace validation (lower bound). Base: the solver's start set (blind vectors) carries its own certificate.
+  let v := if it == 0 && havePrev then
+      let bad := firstSome prev.toList (fun e => if blindCertOK m e.action e.values eps then none else some s!"a={e.action} {showVec e.values}")
+      v.failIf bad.isSome s!"{algo} initial_vector_not_a_blind_subsolution {bad.getD ""}"
+    else v
+  -- Step: every vector that was not there before is certified by a point backup of certified vectors (SARSOP adds one backup per
+  -- sampled node; GapMin's vectors come out of a multi-step PBVI run and are not validated here)
+  -- trace validation (upper bound, SARSOP): every stored point / corner entry that was not there before must be worth at least the
+  -- promising backup of its belief on the already certified surface
+  let v := match prevUb with
+    | some (pQ, pPts) =>
+      if algo != "SARSOP" then v else
+      let newPts := pts.toList.filter (fun (p : Vec × Rat) => !(pPts.any (fun q => q.1 == p.1 && q.2 == p.2)))
+      let newCorners := (List.range m.S).flatMap (fun s => (List.range m.A).filterMap (fun a =>
+        if Q.get s a == pQ.get s a then none else some (UbItem.corner s a (Q.get s a))))
+      let items := newCorners ++ newPts.map (fun (p : Vec × Rat) => UbItem.point p.1 p.2)
+      if items.length == 0 then { v with tag := v.tag ++ " ubtrace_no_change" }
+      else if items.length + pPts.size > 60 then { v with tag := v.tag ++ " ubtrace_too_large" }
+      else
+        let left := certifyUb m eps (reachable m b0 2) pQ pPts items 4
+        { v with tag := v.tag ++ (if left == 0 then " ubtrace_certified" else " ubtrace_unjustified") }
+    | none => v
+  if havePrev then
+    let prevA := prev.map (·.values)
+    let news := vl.toList.filter (fun e => !(prevA.any (fun p => p == e.values)))
+    if news.length == 0 then return { v with tag := v.tag ++ " trace_no_new_vector" }.render
+    if prevA.size + news.length > 40 || m.O > 4 then return { v with tag := v.tag ++ " trace_too_large" }.render
+    let (cert, left) := justify m eps (reachable m b0 2) prevA (news.map (fun e => (e.action, e.values))) (if algo == "SARSOP" then 8 else 14)
+    -- the certificate is re-checked by the verified checker `certChain` (Props/C03Trace: `certChain_sound`)
+    let okChain := (certChain m eps prevA cert).isSome
+    let v := v.diffIf (!okChain) s!"{algo} trace_certificate_rejected"
+    let v := { v with tag := v.tag ++ (if left == 0 then " trace_certified" else " trace_unjustified") }
+    -- not certified: undecided by the kernel clause, so probe harder — every belief of the explored tree near the root
+    let v := if left == 0 then v else
+      let res := vecAbove m (news.map (·.values)) ((reachable m b0 2).filterMap (fun x =>
+        let ms := mass m.S x.get
+        if decide (ms ≤ 0) then none else let nx := mkVec m.S (fun s => x.get s / ms); some (nx, r.U nx))) eps
+      v.failIf res.isSome s!"{algo} lb_vector_above_optimal_value {res.getD ""}"
+    return v.render
   return v.render
 
 /-- `final <pomdp> <b0> algo p1 p2 nsnap budgetStop | lb ub vlist Q` -/
@@ -345,10 +464,9 @@ def consOp : P String := do
   let res := vecAbove m [iα] ((probes m b0 ++ [b]).map (fun x => (x, r.U x))) (epsOf m)
   -- the known defect is exactly the as-found model's behaviour: a failing vector the model does not reproduce is something else
   let asModel := ma == ia && closeVec m.S mα iα
-  let v := v.failIf res.isSome s!"bestConservativeAction alpha_above_optimal_value{if asModel then sfx m else "_and_model_mismatch"} {res.getD ""}"
+  let v := v.failIf res.isSome s!"bestConservativeAction alpha_above_optimal_value{if asModel then "" else "_and_model_mismatch"} {res.getD ""}"
   return v.render
 
-def matRows (Q : Mat) : List (List Rat) := Q.toList.map (·.toList)
 
 /-- `prom <pomdp> <b0> b useLP ubQ ubV | action value vals` -/
 def promOp : P String := do
@@ -357,15 +475,8 @@ def promOp : P String := do
   let ia ← P.nat; let iv ← P.q; let ivals ← lvecP; P.eof
   if !validModel m then return "skip invalid_model"
   let eps := epsOf m
-  -- model: sawtooth reading of the surface (for LP the sawtooth value is an upper estimate of the LP optimum)
-  let saw (x : Vec) : Option Rat :=
-    (AITB.Interp.sawtooth AITB.Interp.srcVariant x.toList (matRows Q) m.A (pts.toList.map (·.1.toList)) (pts.toList.map (·.2))).map (·.value)
-  let mvals : Array (Option Rat) := (Array.range m.A).map (fun a =>
-    (List.range m.O).foldl (fun acc o => match acc with
-      | none => none
-      | some s =>
-        let nb := bstepV m b a o
-        if checkEqualSmall (mass m.S nb.get) 0 then some s else (saw nb).map (fun t => s + t)) (some 0) |>.map (fun s => rew m b.get a + m.γ * s))
+  -- model: `promisingActSaw` (AITB.Model.POMDP3), the observation loop of bestPromisingAction<false> over the C12 sawtooth model
+  let mvals : Array (Option Rat) := (Array.range m.A).map (promisingActSaw m Q pts b)
   let v : Verdict := { tag := if lp then "bestPromisingAction_lp" else "bestPromisingAction_sawtooth" }
   let v := v.diffIf (ivals.size != m.A) "bestPromisingAction vals_size"
   let res := firstSome (List.range m.A) (fun a => match mvals.getD a none with
